@@ -307,32 +307,42 @@ Definition optimalBSID (requested srcSize : Z) : option Z :=
   optimalBSID_loop (Z.to_nat requested) requested LZ4F_max64KB C10_64KB srcSize.
 
 (* LZ4F_compressFrame / LZ4F_compressFrame_usingCDict (lz4frame.c:428), cdict = NULL,
-   on a zeroed context *)
-Definition compressFrame (po : option prefs) (n cap : Z) (tape : list Z) : out :=
+   on a zeroed context.  First part: the preferences actually used. *)
+Definition frame_prefs (po : option prefs) (n : Z) : option prefs :=
   let p := match po with None => prefs_zero | Some p => p end in
-  let p := if p_csize p =? 0 then p else set_csize p n in
+  let p := if p_csize p =? 0 then p else set_csize p n in   (* auto-correct content size if selected *)
   match optimalBSID (p_bsid p) n with
-  | None => mkOut OutOfModel 0 []
+  | None => None
   | Some id =>
-    if negb (valid_bsid0 id) then mkOut OutOfModel 0 [] else
+    if negb (valid_bsid0 id) then None else
     let p := set_af (set_bsid p id) true in
-    let p := if n <=? getBlockSize (p_bsid p) then set_linked p false else p in
-    if cap <? compressFrameBound n (Some p) then mkOut (Err E_tooSmall) 0 []
-    else
-      let '(o1, c1) := compressBegin cctx0 (Some p) cap in
-      match o_ret o1 with
-      | Ok headerSize =>
-        let '(o2, c2, t2) := updateImpl true c1 false n (cap - headerSize) tape in
-        match o_ret o2 with
-        | Ok cSize =>
-          let '(o3, c3, t3) := compressEnd c2 (cap - headerSize - cSize) t2 in
-          let ext := Z.max (o_ext o1) (Z.max (headerSize + o_ext o2) (headerSize + cSize + o_ext o3)) in
-          match o_ret o3 with
-          | Ok tailSize => mkOut (Ok (headerSize + cSize + tailSize)) ext (o_blocks o2 ++ o_blocks o3)
-          | r => mkOut r ext (o_blocks o2 ++ o_blocks o3)
-          end
-        | r => mkOut r (Z.max (o_ext o1) (headerSize + o_ext o2)) (o_blocks o2)
+    (* only one block => no need for inter-block link *)
+    Some (if n <=? getBlockSize (p_bsid p) then set_linked p false else p)
+  end.
+
+(* second part: capacity check, header, one update, end *)
+Definition compressFrame_with (p : prefs) (n cap : Z) (tape : list Z) : out :=
+  if cap <? compressFrameBound n (Some p) then mkOut (Err E_tooSmall) 0 []
+  else
+    let '(o1, c1) := compressBegin cctx0 (Some p) cap in
+    match o_ret o1 with
+    | Ok headerSize =>
+      let '(o2, c2, t2) := updateImpl true c1 false n (cap - headerSize) tape in
+      match o_ret o2 with
+      | Ok cSize =>
+        let '(o3, c3, t3) := compressEnd c2 (cap - headerSize - cSize) t2 in
+        let ext := Z.max (o_ext o1) (Z.max (headerSize + o_ext o2) (headerSize + cSize + o_ext o3)) in
+        match o_ret o3 with
+        | Ok tailSize => mkOut (Ok (headerSize + cSize + tailSize)) ext (o_blocks o2 ++ o_blocks o3)
+        | r => mkOut r ext (o_blocks o2 ++ o_blocks o3)
         end
-      | r => mkOut r (o_ext o1) []
+      | r => mkOut r (Z.max (o_ext o1) (headerSize + o_ext o2)) (o_blocks o2)
       end
+    | r => mkOut r (o_ext o1) []
+    end.
+
+Definition compressFrame (po : option prefs) (n cap : Z) (tape : list Z) : out :=
+  match frame_prefs po n with
+  | None => mkOut OutOfModel 0 []     (* blockSizeID for which LZ4F_getBlockSize fails *)
+  | Some p => compressFrame_with p n cap tape
   end.
